@@ -11,26 +11,59 @@ CLAIMED = {
  "C02": ("E1", "exploration", "stateful model-based property testing with restart steps",
          "Observable snapshot (contents, sizes, refcounts, stats) before a clean drop must equal the one after reopen and the model, for generated histories with reopen/checkpoint at all positions relative to segment boundaries.",
          "stats.index.serialized_size_bytes is excluded (snapshot file size legitimately changes when a reopen replays)."),
- "C06": ("E1", "exploration", "invariant over generated histories: blake3(file)==path for every CAS file; long-lived reader round-trip",
-         "After every step every file under cas/ must hash to its path; readers opened before overwrite/removal must stream the original bytes.",
-         "Sequential part only so far."),
- "C07": ("E1", "exploration", "model-based: cas/ listing == live content set after every step",
-         "Directory listing of cas/ and staging/ is compared with the model's live set after every step of generated histories biased to refcount transitions.",
+ "C03": ("E2", "fault_enumeration", "crash-point enumeration over traced syscalls of generated epoch chains; recovery judged against model of acknowledged ops",
+         "A worker process runs generated histories under an LD_PRELOAD trace shim; every state between two mutating filesystem calls (incl. initialisation, recovery, checkpoint, pruning) is reconstructed and recovered in-process; recovered map must equal acknowledged ops with the in-flight op all-or-nothing; chains continue from crash images.",
+         "Process-kill model (completed calls persist, write calls atomic); trace model validated per run against the real directory and against real kills at sampled cuts."),
+ "C04": ("E3", "exploration", "deterministic-schedule exploration (generated programs x generated schedules) with an index->blob invariant at every step",
+         "Real threads run generated small concurrent programs under a scheduler that owns every index-lock acquisition and commit/unlink step (hooks, feature verif); at each step every visible key must resolve to an intact blob.",
+         "Interleavings are explored at yield-point granularity; random-walk and PCT schedules, not exhaustive."),
+ "C05": ("E3", "exploration", "deterministic-schedule exploration + linearizability checking (Wing-Gong search) of recorded histories",
+         "Reader/writer programs under generated schedules; no read may fail or return partial bytes; the history with a final read-all must be linearizable with two-point semantics for remove/remove_range.",
+         "Yield-point granularity; histories <= 12 calls."),
+ "C06": ("E1+E2+E3", "exploration", "invariant blake3(file)==path checked after every step / at every crash cut / at every scheduling step; long-lived reader round-trip; trace check: no write-open under cas/",
+         "Sequential histories, every kill cut of traced epoch chains, and every scheduling step of concurrent programs are inspected: each file under cas/ must sit at a canonical path and hash to it; old readers stream original bytes.",
+         "Kill model for crash cuts (write calls atomic)."),
+ "C07": ("E1+E3", "exploration", "model-based: cas/ listing == live content set after every sequential step and at the end of every schedule",
+         "Directory listing of cas/ and staging/ is compared with the model's live set after every step of generated histories and at quiescence of generated concurrent programs.",
          "Cases in which a call returned Err are discarded (the statement excludes failures)."),
- "C12": ("E1", "exploration", "model-based: refcounts/stats/sizes vs model after every step and reopen",
-         "known_blobs, contains_blob_hash, stats.cas, item sizes are compared with values derived from the model after every step and reopen.",
+ "C08": ("E2+E3", "exploration", "differential: OrphanStats vs independent directory/index diff on every crash image; clean-up effects checked; clean-up raced with puts under generated schedules",
+         "Every kill image of generated epoch chains is opened with recovery+verification; OrphanStats must equal an independent diff; delete_orphans must remove exactly the garbage and harm nothing; orphan clean-up racing puts/removes is explored by the scheduler.",
+         "Planted-damage classes beyond what crashes produce are covered by the planted part of the check."),
+ "C09": ("E2", "fault_enumeration", "crash-point x lost-unsynced-subset enumeration over traced syscalls (Sync mode)",
+         "For every cut of traced Sync-mode epoch chains and every non-empty subset of files with bytes not covered by fsync/fdatasync, the rolled-back image is recovered and judged with the C03 oracle.",
+         "The property's own model: whole unsynced suffix lost per file, directory operations durable and ordered."),
+ "C10": ("in-process", "fault_enumeration", "enumeration of truncation offsets and single-byte alterations of real logs produced by generated histories; differential against independent decoder",
+         "Logs written by generated histories are truncated at (nearly) every offset and altered byte-wise in checksum/payload fields; open must fail or yield exactly the longest-undamaged-prefix state; never panic.",
+         "Quick tier samples offsets away from record boundaries; thorough enumerates all."),
+ "C12": ("E1+E2", "exploration", "model-based: refcounts/stats/sizes vs model after every step and reopen; internal consistency after every crash recovery",
+         "known_blobs, contains_blob_hash, stats.cas, item sizes are compared with values derived from the model after every step and reopen, and with the recovered map after recovery of every kill image.",
          "Built with overflow checks so counter underflow panics."),
- "C13": ("E1", "exploration", "differential before/after abort over generated histories",
-         "Begin/Write/Abort must not change log, index, CAS listing or any observable; staging file must go; later commits on the key unaffected; same after reopen.",
-         "Sequential part only so far."),
- "C18": ("E1", "exploration", "round-trip: committed item == {blake3(content), len}, file at harness-derived path, over generated chunkings",
+ "C13": ("E1+E3", "exploration", "differential before/after abort over generated histories; aborts raced with puts under generated schedules",
+         "Begin/Write/Abort must not change log, index, CAS listing or any observable; staging file must go; later commits on the key unaffected; same after reopen; concurrent aborts are no-ops in a linearizable history.",
+         "-"),
+ "C14": ("E2", "fault_enumeration", "fault injection at every eligible filesystem call of generated histories; uncertainty model {old,new} for failed ops",
+         "For each generated history and EVERY eligible call index one worker run with that call failing (EIO/ENOSPC, no side effect); no panic/hang; later results, state before close, reopen and state after reopen must be consistent with the uncertainty model.",
+         "Faults during open itself are outside the statement; a hang is a 20 s watchdog confirmed three times."),
+ "C15": ("E3", "exploration", "deterministic-schedule exploration with exact all-blocked detection + lock-order graph with gate refinement",
+         "Checkpoint/rollover/clean-up heavy programs under generated schedules; the scheduler knows which parked worker can be granted its lock, so 'unfinished workers, none grantable' is an exact deadlock witness; lock-order edges from all runs must be acyclic (gate-free).",
+         "Safety form of liveness at yield-point granularity; blocking on un-hooked primitives is only caught by the watchdog."),
+ "C16": ("in-process", "exploration", "round-trip and totality property tests over structured values, exhaustive short byte strings, mutations of valid encodings; allocation bound by counting allocator",
+         "Encoders are compared with an independent encoder of the documented format and round-tripped; decoders are fed exhaustive/random/mutated bytes and must not panic, must re-encode stably and must not allocate beyond 64x input + 4 KiB.",
+         "Allocation statement interpreted as linear-in-input, independent of embedded counts (DESIGN section 9)."),
+ "C17": ("in-process", "exploration", "exhaustive small cube + boundary grid + random triples against slice oracle; allocation bound",
+         "get_range is compared with content[min(s,L)..min(e,L)] for exhaustive small and boundary (L,start,end) and random triples; inverted ranges inside the blob must be rejected; allocation <= L + 8 KiB.",
+         "start > end >= L is unspecified by the statement and not judged."),
+ "C18": ("E1", "exploration", "round-trip: committed item == {blake3(content), len}, file at harness-derived path, over generated chunkings; path bijection cases in C16's path law",
          "For generated contents and chunkings the committed hash/size/location are compared with values the harness derives independently.",
          "blake3 crate one-shot hashing trusted."),
- "C20": ("E1", "exploration", "independent decoder of the on-disk format applied after every step",
-         "An independent reader parses index and segments strictly after every step, checks version order/range/no-reuse across restarts and that snapshot+log decode to the model.",
-         "Sequential part only so far."),
+ "C19": ("in-process", "exploration", "enumeration of all (N_create,N_reopen) pairs and stored versions over generated histories; byte-for-byte directory diff; pre-create differential",
+         "Mismatching opens must fail with a settings error and leave the directory identical; matching opens see the model; pre-created and on-demand directory trees behave identically and the stored choice wins.",
+         "-"),
+ "C20": ("E1+E2", "exploration", "independent decoder of the on-disk format applied after every sequential step and at every crash cut",
+         "An independent reader parses index and segments strictly after every step and at every kill cut, checks version order/range/no-reuse across restarts and that snapshot+log decode to the acknowledged history.",
+         "Kill model for cuts."),
 }
-PENDING_REASON = "check under construction in this session (engine not built yet); not claimed until it runs"
+PENDING_REASON = "check under construction in this session (race-plan engine for concurrent opens not built yet); not claimed until it runs"
 
 props = [json.loads(l) for l in open(os.path.join(HERE, "properties.jsonl"))]
 def hook_commits():
